@@ -179,6 +179,15 @@ func (p *Peer) readLoop() {
 func (p *Peer) convert(xf xh2.Frame) Frame {
 	h := xf.Header()
 	f := Frame{Type: byte(h.Type), Flags: byte(h.Flags), Stream: h.StreamID, Len: int(h.Length)}
+	// header block sequencing (RFC 7540 6.2, 6.10): between a HEADERS / PUSH_PROMISE frame without END_HEADERS and the
+	// CONTINUATION that carries it, nothing but CONTINUATION frames on that stream; a CONTINUATION frame nowhere else.
+	// The Framer runs with AllowIllegalReads (so that the oracles see what was sent), which switches its own check off.
+	if _, isCont := xf.(*xh2.ContinuationFrame); p.inBlock && !(isCont && h.StreamID == p.blockStream) {
+		noteRejected(fmt.Sprintf("%v frame on stream %d inside the header block of stream %d, which has not had END_HEADERS (a conforming reader: connection error PROTOCOL_ERROR)", h.Type, h.StreamID, p.blockStream))
+		p.inBlock = false
+	} else if isCont && !p.inBlock {
+		noteRejected(fmt.Sprintf("CONTINUATION frame on stream %d without a header block to continue (a conforming reader: connection error PROTOCOL_ERROR)", h.StreamID))
+	}
 	block := func(frag []byte, end bool) {
 		f.Block = append([]byte{}, frag...)
 		if !p.inBlock {
